@@ -54,3 +54,46 @@ pub open spec fn flt(n: Number) -> f64 {
 }
 // an integer result is represented as a Fixnum exactly when that is how `fixnum!` / arena_from(i64) normalise
 pub open spec fn int_res(x: Number, v: int) -> bool { is_int(x) && ival(x) == v }
+
+pub open spec fn err_is(r: Result<Number, MachineStubGen>, f: Formal) -> bool { r matches Err(e) && e.formal() == f }
+pub open spec fn zero_div() -> Formal { Formal::Eval(EvalError::ZeroDivisor) }
+pub open spec fn undefined() -> Formal { Formal::Eval(EvalError::Undefined) }
+pub open spec fn must_be_int(n: Number) -> Formal { Formal::Type(ValidType::Integer, n) }
+// ISO: the culprit of a type_error(integer, _) raised by a binary integer operation is a non-integer operand
+pub open spec fn int_type_err(r: Result<Number, MachineStubGen>, a: Number, b: Number) -> bool {
+    (!is_int(a) && err_is(r, must_be_int(a))) || (!is_int(b) && err_is(r, must_be_int(b)))
+}
+
+#[verifier::external_body] pub fn f64_is_zero(f: f64) -> (r: bool) ensures r == f_is_zero(f) { unimplemented!() }
+#[verifier::external_body] pub fn f64_is_negative(f: f64) -> (r: bool) ensures r == f_lt_zero(f) { unimplemented!() }
+impl OrderedFloat<f64> {
+    #[verifier::external_body] pub fn is_sign_positive(&self) -> (r: bool) { unimplemented!() }
+}
+impl Rational {
+    #[verifier::external_body] pub fn ref_is_zero(&self) -> (r: bool) ensures r == (q_sign(*self) == 0) { unimplemented!() }
+}
+
+// divrem crate: RemFloor for i64 (K: rem_floor_i64 checks the real impl against fmod on the Fixnum domain)
+pub trait RemFloor: Sized { fn rem_floor(self, o: Self) -> Self; }
+impl RemFloor for i64 {
+    #[verifier::external_body]
+    fn rem_floor(self, o: i64) -> (r: i64) ensures o != 0 ==> r == fmod(self as int, o as int) { unimplemented!() }
+}
+// dashu ConstDivisor: reduce(x).residue() is the non-negative residue of x modulo the divisor
+#[verifier::external_body] pub struct ConstDivisor { _p: u8 }
+#[verifier::external_body] pub struct Reduced<'a> { _p: &'a u8 }
+impl ConstDivisor {
+    pub uninterp spec fn d(&self) -> int;
+    #[verifier::external_body] pub fn new(u: UBig) -> (r: ConstDivisor) ensures r.d() == u.v() { unimplemented!() }
+    #[verifier::external_body] pub fn reduce<'a>(&'a self, x: Integer) -> (r: Reduced<'a>) ensures r.ring_d() == self.d(), r.x() == x.v() { unimplemented!() }
+}
+impl<'a> Reduced<'a> {
+    pub uninterp spec fn ring_d(&self) -> int;
+    pub uninterp spec fn x(&self) -> int;
+    #[verifier::external_body] pub fn residue(self) -> (r: UBig) ensures self.ring_d() > 0 ==> r.v() == self.x() % self.ring_d() { unimplemented!() }
+}
+// machine two's-complement bit operations agree with the mathematical (infinite two's complement) ones
+#[verifier::external_body]
+pub proof fn axiom_i64_bitops(a: i64, b: i64)
+    ensures (a & b) as int == bitand_int(a as int, b as int), (a | b) as int == bitor_int(a as int, b as int), (a ^ b) as int == bitxor_int(a as int, b as int)
+{ }
